@@ -810,3 +810,347 @@ Section CacheProofs.
     exists res. exact Hn'.
   Qed.
 End CacheProofs.
+
+(* ------------------------------------------------------------------------------------ *)
+(** * The encode-plan builder over a table of types is an instance *)
+
+Lemma all_some_Forall2 {A B} (f : A -> option B) : forall l subs,
+  all_some (map f l) = Some subs <-> Forall2 (fun d p => f d = Some p) l subs.
+Proof.
+  induction l as [|d l IH]; intros subs; cbn [map all_some].
+  - split; intros H; [inversion H; constructor|inversion H; reflexivity].
+  - destruct (f d) as [b|] eqn:Hf.
+    + destruct (all_some (map f l)) as [r|] eqn:Ha; cbn [option_map]; split; intros H.
+      * inversion H; subst. constructor; [exact Hf|]. apply IH. reflexivity.
+      * inversion H as [|? ? ? ? Hd Hr]; subst. rewrite Hf in Hd. inversion Hd; subst.
+        apply IH in Hr. inversion Hr; subst. reflexivity.
+      * discriminate.
+      * inversion H as [|? ? ? ? Hd Hr]; subst. apply IH in Hr. discriminate.
+    + split; intros H; [discriminate|]. inversion H as [|? ? ? ? Hd Hr]; subst. rewrite Hf in Hd. discriminate.
+Qed.
+
+Lemma all_some_none {A B} (f : A -> option B) : forall l,
+  all_some (map f l) = None -> exists d, In d l /\ f d = None.
+Proof.
+  induction l as [|d l IH]; cbn [map all_some]; intros H; [discriminate|].
+  destruct (f d) as [b|] eqn:Hf.
+  - destruct (all_some (map f l)) as [r|] eqn:Ha; [discriminate|].
+    destruct (IH eq_refl) as [d' [Hin Hd']]. exists d'. split; [right; exact Hin|exact Hd'].
+  - exists d. split; [left; reflexivity|exact Hf].
+Qed.
+
+Section Concrete.
+  Variable tbl : ttable.
+  (** The table of types has no cycle: a rank decreases along dependencies.  [N] bounds it. *)
+  Variable rank : Z -> nat.
+  Variable N : nat.
+  Hypothesis rank_dec : forall ty d, In d (deps_of tbl ty) -> (rank d < rank ty)%nat.
+  Hypothesis rank_bound : forall ty, (rank ty < N)%nat.
+
+  Lemma pure_plan_stable : forall n m ty,
+    (rank ty < n)%nat -> (rank ty < m)%nat -> pure_plan tbl n ty = pure_plan tbl m ty.
+  Proof.
+    induction n as [|n IH]; intros m ty Hn Hm; [lia|]. destruct m as [|m]; [lia|]. cbn [pure_plan].
+    assert (H : map (pure_plan tbl n) (deps_of tbl ty) = map (pure_plan tbl m) (deps_of tbl ty)).
+    { apply map_ext_in. intros d Hd. pose proof (rank_dec ty d Hd). apply IH; lia. }
+    rewrite H. reflexivity.
+  Qed.
+
+  Definition purec : Z -> option plan := pure_plan tbl N.
+
+  Lemma purec_unfold : forall ty,
+    purec ty = match all_some (map purec (deps_of tbl ty)) with
+               | Some subs => mk_of tbl ty subs
+               | None => None
+               end.
+  Proof.
+    intros ty. unfold purec. pose proof (rank_bound ty).
+    rewrite (pure_plan_stable N (S N) ty) by lia. reflexivity.
+  Qed.
+
+  Lemma purec_mk : forall ty subs,
+    Forall2 (fun d p => purec d = Some p) (deps_of tbl ty) subs -> mk_of tbl ty subs = purec ty.
+  Proof.
+    intros ty subs H. rewrite (purec_unfold ty). apply all_some_Forall2 in H. rewrite H. reflexivity.
+  Qed.
+
+  Lemma purec_deps : forall ty p, purec ty = Some p ->
+    forall d, In d (deps_of tbl ty) -> exists q, purec d = Some q.
+  Proof.
+    intros ty p H d Hd. rewrite purec_unfold in H.
+    destruct (all_some (map purec (deps_of tbl ty))) as [subs|] eqn:Ha; [|discriminate].
+    apply all_some_Forall2 in Ha. clear H. induction Ha as [|d' q l subs Hq _ IH]; [destruct Hd|].
+    destruct Hd as [->|Hd]; [exists q; exact Hq|apply IH; exact Hd].
+  Qed.
+
+  (** Upper bound of the cache accesses of one lookup. *)
+  Fixpoint cost_f (n : nat) (ty : Z) : nat :=
+    match n with
+    | O => 2%nat
+    | S k => (2 + list_sum (map (cost_f k) (deps_of tbl ty)))%nat
+    end.
+
+  Lemma cost_f_stable : forall n m ty,
+    (rank ty < n)%nat -> (rank ty < m)%nat -> cost_f n ty = cost_f m ty.
+  Proof.
+    induction n as [|n IH]; intros m ty Hn Hm; [lia|]. destruct m as [|m]; [lia|]. cbn [cost_f].
+    assert (H : map (cost_f n) (deps_of tbl ty) = map (cost_f m) (deps_of tbl ty)).
+    { apply map_ext_in. intros d Hd. pose proof (rank_dec ty d Hd). apply IH; lia. }
+    rewrite H. reflexivity.
+  Qed.
+
+  Definition costc : Z -> nat := cost_f N.
+
+  Lemma costc_eq : forall ty, costc ty = (2 + list_sum (map costc (deps_of tbl ty)))%nat.
+  Proof.
+    intros ty. unfold costc. pose proof (rank_bound ty).
+    rewrite (cost_f_stable N (S N) ty) by lia. reflexivity.
+  Qed.
+End Concrete.
+
+(** A boolean check of the rank conditions for a concrete table (types outside the table
+    have no dependencies). *)
+Definition rank_of (ranks : list (Z * nat)) (ty : Z) : nat :=
+  match clookup ranks ty with Some r => r | None => O end.
+
+Definition check_ranks (tbl : ttable) (ranks : list (Z * nat)) (N : nat) : bool :=
+  forallb (fun r : Z * tydef =>
+             forallb (fun d => Nat.ltb (rank_of ranks d) (rank_of ranks (fst r))) (deps_of tbl (fst r))) tbl
+  && forallb (fun r : Z * nat => Nat.ltb (snd r) N) ranks && Nat.ltb 0 N.
+
+Lemma clookup_in {A} : forall (l : list (Z * A)) k a, clookup l k = Some a -> In (k, a) l.
+Proof.
+  induction l as [|[k' a'] l IH]; intros k a H; cbn [clookup] in H; [discriminate|].
+  destruct (k' =? k) eqn:He.
+  - apply Z.eqb_eq in He. subst. inversion H; subst. left. reflexivity.
+  - right. apply IH. exact H.
+Qed.
+
+Lemma check_ranks_sound : forall tbl ranks N,
+  check_ranks tbl ranks N = true ->
+  (forall ty d, In d (deps_of tbl ty) -> (rank_of ranks d < rank_of ranks ty)%nat) /\
+  (forall ty, (rank_of ranks ty < N)%nat).
+Proof.
+  intros tbl ranks N H. unfold check_ranks in H.
+  apply andb_prop in H. destruct H as [H HN]. apply andb_prop in H. destruct H as [Hd Hb].
+  apply Nat.ltb_lt in HN. rewrite forallb_forall in Hd, Hb. split.
+  - intros ty d Hin. unfold deps_of, tdef in Hin.
+    destruct (clookup tbl ty) as [def|] eqn:Hl; [|destruct Hin].
+    pose proof (clookup_in _ _ _ Hl) as Hl2. specialize (Hd (ty, def) Hl2). cbn [fst] in Hd.
+    rewrite forallb_forall in Hd. apply Nat.ltb_lt. apply Hd.
+    unfold deps_of, tdef. rewrite Hl. exact Hin.
+  - intros ty. unfold rank_of. destruct (clookup ranks ty) as [r|] eqn:Hl; [|exact HN].
+    apply clookup_in in Hl. specialize (Hb (ty, r) Hl). cbn [snd] in Hb. apply Nat.ltb_lt. exact Hb.
+Qed.
+
+(* ------------------------------------------------------------------------------------ *)
+(** * Encoding only depends on the plans of the types it looks up *)
+
+Section LkAgree.
+  Variable lk1 lk2 : Z -> option plan.
+  Variable tag_of : Z -> option Z.
+
+  Definition agree_on (L : list Z) : Prop := forall ty, In ty L -> lk1 ty = lk2 ty.
+
+  Definition comp := enc -> enc * status.
+
+  (** The ghost log only grows, by appending. *)
+  Definition ext_log (c : comp) : Prop := forall e, exists L, e_log (fst (c e)) = e_log e ++ L.
+
+  (** [c2] (run with [lk2]) does what [c1] (run with [lk1]) does, provided the two agree on
+      the types [c1] looks up. *)
+  Definition sim (c1 c2 : comp) : Prop :=
+    forall e, (forall L, e_log (fst (c1 e)) = e_log e ++ L -> agree_on L) -> c2 e = c1 e.
+
+  Lemma agree_app : forall L1 L2, agree_on (L1 ++ L2) -> agree_on L1 /\ agree_on L2.
+  Proof.
+    intros L1 L2 H. split; intros ty Hin; apply H; apply in_or_app; [left|right]; exact Hin.
+  Qed.
+
+  Lemma sim_andthen : forall (c1 c2 k1 k2 : comp),
+    ext_log c1 -> ext_log k1 -> sim c1 c2 -> sim k1 k2 ->
+    sim (fun e => andthen (c1 e) k1) (fun e => andthen (c2 e) k2).
+  Proof.
+    intros c1 c2 k1 k2 Hec Hek Hc Hk e H.
+    destruct (Hec e) as [L1 HL1].
+    destruct (c1 e) as [e1 s] eqn:Hc1. cbn [fst] in HL1.
+    destruct s.
+    - destruct (Hek e1) as [L2 HL2]. cbn [andthen] in H.
+      assert (Ha : agree_on (L1 ++ L2)).
+      { apply H. rewrite HL2, HL1. rewrite app_assoc. reflexivity. }
+      apply agree_app in Ha. destruct Ha as [Ha1 Ha2].
+      rewrite (Hc e).
+      + rewrite Hc1. cbn [andthen]. apply Hk. intros L HL. rewrite HL2 in HL.
+        apply app_inv_head in HL. subst. exact Ha2.
+      + intros L HL. rewrite Hc1 in HL. cbn [fst] in HL. rewrite HL1 in HL.
+        apply app_inv_head in HL. subst. exact Ha1.
+    - cbn [andthen fst] in H. rewrite (Hc e); [rewrite Hc1; reflexivity|].
+      intros L HL. rewrite Hc1 in HL. cbn [fst] in HL. apply H. exact HL.
+    - cbn [andthen fst] in H. rewrite (Hc e); [rewrite Hc1; reflexivity|].
+      intros L HL. rewrite Hc1 in HL. cbn [fst] in HL. apply H. exact HL.
+  Qed.
+
+  Lemma ext_andthen : forall (c k : comp), ext_log c -> ext_log k -> ext_log (fun e => andthen (c e) k).
+  Proof.
+    intros c k Hc Hk e. destruct (Hc e) as [L1 HL1]. destruct (c e) as [e1 s]. cbn [fst] in HL1.
+    destruct s; cbn [andthen fst]; try (exists L1; exact HL1).
+    destruct (Hk e1) as [L2 HL2]. exists (L1 ++ L2). rewrite HL2, HL1. rewrite app_assoc. reflexivity.
+  Qed.
+
+  Lemma ext_ret : forall s, ext_log (fun e => (e, s)).
+  Proof. intros s e. exists []. cbn [fst]. rewrite app_nil_r. reflexivity. Qed.
+
+  Lemma sim_refl_nolk : forall c : comp, sim c c.
+  Proof. intros c e _. reflexivity. Qed.
+
+  Lemma ext_exec_seq : forall (f : value -> comp) vs,
+    Forall (fun v => ext_log (f v)) vs -> ext_log (exec_seq f vs).
+  Proof.
+    intros f vs H. induction H as [|v vs Hv _ IH]; cbn [exec_seq]; [apply ext_ret|].
+    apply (ext_andthen (f v) (exec_seq f vs)); assumption.
+  Qed.
+
+  Lemma sim_exec_seq : forall (f1 f2 : value -> comp) vs,
+    Forall (fun v => ext_log (f1 v) /\ sim (f1 v) (f2 v)) vs -> sim (exec_seq f1 vs) (exec_seq f2 vs).
+  Proof.
+    intros f1 f2 vs H. induction H as [|v vs [Hev Hsv] Hr IH]; cbn [exec_seq]; [apply sim_refl_nolk|].
+    apply (sim_andthen (f1 v) (f2 v) (exec_seq f1 vs) (exec_seq f2 vs)); try assumption.
+    apply ext_exec_seq. eapply Forall_impl; [|exact Hr]. intros a [Ha _]. exact Ha.
+  Qed.
+
+  Lemma ext_exec_fields : forall (g : fplan -> value -> comp) vs,
+    Forall (fun v => forall f, ext_log (g f v)) vs -> forall fs, ext_log (exec_fields g fs vs).
+  Proof.
+    intros g vs H. induction H as [|v vs Hv _ IH]; intros fs; destruct fs as [|f fs]; cbn [exec_fields];
+      try apply ext_ret.
+    apply (ext_andthen (g f v) (exec_fields g fs vs)); [apply Hv|apply IH].
+  Qed.
+
+  Lemma sim_exec_fields : forall (g1 g2 : fplan -> value -> comp) vs,
+    Forall (fun v => forall f, ext_log (g1 f v) /\ sim (g1 f v) (g2 f v)) vs ->
+    forall fs, sim (exec_fields g1 fs vs) (exec_fields g2 fs vs).
+  Proof.
+    intros g1 g2 vs H. induction H as [|v vs Hv Hr IH]; intros fs; destruct fs as [|f fs]; cbn [exec_fields];
+      try apply sim_refl_nolk.
+    destruct (Hv f) as [He Hs].
+    apply (sim_andthen (g1 f v) (g2 f v) (exec_fields g1 fs vs) (exec_fields g2 fs vs)); try assumption.
+    - apply ext_exec_fields. eapply Forall_impl; [|exact Hr]. intros a Ha f'. apply Ha.
+    - apply IH.
+  Qed.
+
+  Lemma ext_in_struct : forall tag (body : comp), ext_log body -> ext_log (in_struct tag body).
+  Proof.
+    intros tag body Hb e. unfold in_struct. destruct (w_open (e_w e) tag) as [w1 off].
+    destruct (Hb (set_w e w1)) as [L HL]. destruct (body (set_w e w1)) as [e1 s]. cbn [fst] in HL.
+    exists L. destruct s; cbn [andthen fst]; exact HL.
+  Qed.
+
+  Lemma sim_in_struct : forall tag (b1 b2 : comp), sim b1 b2 -> sim (in_struct tag b1) (in_struct tag b2).
+  Proof.
+    intros tag b1 b2 Hb e H. unfold in_struct in *. destruct (w_open (e_w e) tag) as [w1 off].
+    rewrite (Hb (set_w e w1)); [reflexivity|].
+    intros L HL. apply H. destruct (b1 (set_w e w1)) as [e1 s]. cbn [fst] in HL.
+    destruct s; cbn [andthen fst]; exact HL.
+  Qed.
+
+  Lemma ext_dyn : forall lk (rec : plan -> Z -> value -> comp) ty tag v,
+    (forall q t, ext_log (rec q t v)) -> ext_log (dyn lk rec ty tag v).
+  Proof.
+    intros lk rec ty tag v Hr e. unfold dyn. destruct (lk ty) as [q|].
+    - destruct (Hr q tag (add_log e ty)) as [L HL]. exists (ty :: L). rewrite HL. cbn [add_log e_log].
+      rewrite <- app_assoc. reflexivity.
+    - exists [ty]. reflexivity.
+  Qed.
+
+  Lemma sim_dyn : forall (r1 r2 : plan -> Z -> value -> comp) ty tag v,
+    (forall q t, ext_log (r1 q t v) /\ sim (r1 q t v) (r2 q t v)) ->
+    sim (dyn lk1 r1 ty tag v) (dyn lk2 r2 ty tag v).
+  Proof.
+    intros r1 r2 ty tag v Hr e H. unfold dyn in *.
+    assert (Hty : lk1 ty = lk2 ty).
+    { destruct (lk1 ty) as [q|] eqn:Hq.
+      - destruct (Hr q tag) as [He _]. destruct (He (add_log e ty)) as [L HL].
+        rewrite <- Hq. apply (H (ty :: L)); [|left; reflexivity].
+        rewrite HL. cbn [add_log e_log]. rewrite <- app_assoc. reflexivity.
+      - rewrite <- Hq. apply (H [ty]); [reflexivity|left; reflexivity]. }
+    rewrite <- Hty. destruct (lk1 ty) as [q|]; [|reflexivity].
+    destruct (Hr q tag) as [He Hs]. apply Hs. intros L HL. intros ty' Hin.
+    apply (H (ty :: L)); [|right; exact Hin].
+    rewrite HL. cbn [add_log e_log]. rewrite <- app_assoc. reflexivity.
+  Qed.
+
+  Lemma ext_exec_field : forall lk (rec : plan -> Z -> value -> comp) f x,
+    (forall q t, ext_log (rec q t x)) ->
+    (forall ty v', x = VIface ty v' -> forall q t, ext_log (rec q t v')) ->
+    ext_log (exec_field lk tag_of rec f x).
+  Proof.
+    intros lk rec f x Hx Hu e. unfold exec_field. destruct f as [o q|].
+    - unfold field_setver. destruct (f_setver o).
+      + destruct (value_version x) as [vv|]; [|apply ext_ret].
+        destruct (field_skipped o x (set_ext e (Some vv))); [exists []; cbn [fst set_ext e_log]; rewrite app_nil_r; reflexivity|].
+        destruct (Hx q (f_tag o) (set_ext e (Some vv))) as [L HL]. exists L. exact HL.
+      + destruct (field_skipped o x e); [apply ext_ret|]. apply Hx.
+    - destruct x; try apply ext_ret. destruct (tag_of ty); [|apply ext_ret].
+      apply ext_dyn. intros q t. eapply Hu. reflexivity.
+  Qed.
+
+  Lemma sim_exec_field : forall (r1 r2 : plan -> Z -> value -> comp) f x,
+    (forall q t, ext_log (r1 q t x) /\ sim (r1 q t x) (r2 q t x)) ->
+    (forall ty v', x = VIface ty v' -> forall q t, ext_log (r1 q t v') /\ sim (r1 q t v') (r2 q t v')) ->
+    sim (exec_field lk1 tag_of r1 f x) (exec_field lk2 tag_of r2 f x).
+  Proof.
+    intros r1 r2 f x Hx Hu e H. unfold exec_field in *. destruct f as [o q|].
+    - destruct (field_setver o x e) as [e1|] eqn:Hs; [|reflexivity].
+      destruct (field_skipped o x e1); [reflexivity|].
+      destruct (Hx q (f_tag o)) as [_ Hsim]. apply Hsim. intros L HL. apply H.
+      assert (Hlog : e_log e1 = e_log e).
+      { unfold field_setver in Hs. destruct (f_setver o).
+        - destruct (value_version x); inversion Hs; reflexivity.
+        - inversion Hs; reflexivity. }
+      rewrite HL, Hlog. reflexivity.
+    - destruct x; try reflexivity. destruct (tag_of ty); [|reflexivity].
+      apply sim_dyn; [|exact H]. intros q t. eapply Hu. reflexivity.
+  Qed.
+
+  Lemma exec_sim_strong : forall v,
+    (forall p tag, ext_log (exec lk1 tag_of p tag v) /\ sim (exec lk1 tag_of p tag v) (exec lk2 tag_of p tag v)) /\
+    under_iface (fun v' => forall p tag, ext_log (exec lk1 tag_of p tag v') /\
+                                         sim (exec lk1 tag_of p tag v') (exec lk2 tag_of p tag v')) v.
+  Proof.
+    induction v as [l| |v IH|vs IH|vs IH|ty v IH] using value_ind'; (split; [|try exact Logic.I]).
+    - intros p tag. destruct p; cbn [exec]; try (split; [apply ext_ret|apply sim_refl_nolk]).
+      destruct (leaf_matches k l); [|split; [apply ext_ret|apply sim_refl_nolk]].
+      split; [|apply sim_refl_nolk]. intros e. exists []. rewrite app_nil_r.
+      unfold put_leaf. destruct (leaf_panics l); reflexivity.
+    - intros p tag. destruct p; cbn [exec]; split; try apply ext_ret; apply sim_refl_nolk.
+    - intros p tag. destruct p; cbn [exec]; try (split; [apply ext_ret|apply sim_refl_nolk]).
+      apply IH.
+    - intros p tag. destruct p; cbn [exec]; try (split; [apply ext_ret|apply sim_refl_nolk]). split.
+      + apply ext_exec_seq. eapply Forall_impl; [|exact IH]. intros a [Ha _]. apply Ha.
+      + apply sim_exec_seq. eapply Forall_impl; [|exact IH]. intros a [Ha _]. apply Ha.
+    - intros p tag. destruct p; cbn [exec]; try (split; [apply ext_ret|apply sim_refl_nolk]). split.
+      + apply ext_in_struct. apply ext_exec_fields. eapply Forall_impl; [|exact IH].
+        intros a [Ha Hu] f. apply ext_exec_field.
+        * intros q t. apply Ha.
+        * intros ty v' -> q t. apply Hu.
+      + apply sim_in_struct. apply sim_exec_fields. eapply Forall_impl; [|exact IH].
+        intros a [Ha Hu] f. split.
+        * apply ext_exec_field; [intros q t; apply Ha|intros ty v' -> q t; apply Hu].
+        * apply sim_exec_field; [intros q t; apply Ha|intros ty v' -> q t; apply Hu].
+    - intros p tag. destruct p; cbn [exec]; try (split; [apply ext_ret|apply sim_refl_nolk]). split.
+      + apply ext_dyn. intros q t. apply IH.
+      + apply sim_dyn. intros q t. apply IH.
+    - cbn [under_iface]. apply IH.
+  Qed.
+
+  (** If [lk2] answers like [lk1] for every type that encoding the message with [lk1] looks
+      up, encoding it with [lk2] gives the same result. *)
+  Theorem encode_top_agree : forall ty tag v e,
+    (forall L, e_log (fst (encode_top lk1 tag_of ty tag v e)) = e_log e ++ L -> agree_on L) ->
+    encode_top lk2 tag_of ty tag v e = encode_top lk1 tag_of ty tag v e.
+  Proof.
+    intros ty tag v e H. unfold encode_top in *.
+    apply (sim_dyn (exec lk1 tag_of) (exec lk2 tag_of) ty tag v); [|exact H].
+    intros q t. apply exec_sim_strong.
+  Qed.
+End LkAgree.
